@@ -57,7 +57,12 @@ def stateStr (n : NAT) (now : Int) : String :=
 
 /-- spec column for an outbound datagram: a literal, or `fresh:<ip>:<lo>-<hi>:!p1,p2` (any valid port
     not held by a live mapping), possibly with `badport` as an alternative -/
-def specOut (c : NatSpec.Cfg) (h : NatSpec.Hist) (src dst : Addr) : String :=
+def specOut (c : NatSpec.Cfg) (h : NatSpec.Hist) (src dst : Addr) (modelOut : OutRes) : String :=
+  if h.entries.length > 40 then
+    -- large histories: the exclusion list would be enormous; the model's own answer is judged by the
+    -- spec and offered as the only alternative (the implementation must then equal it)
+    if NatSpec.allowedOut c h src dst modelOut then outStr modelOut else "spec-rejects-model"
+  else
   if c.one2one then
     match paired c.localIPs c.mappedIPs src.ip with
     | some ip => outStr (.ok { ip := ip, port := src.port })
@@ -109,7 +114,7 @@ def comp (_mode : String) : Component where
     | ["o", a, b] =>
       let src := parseAddr a; let dst := parseAddr b
       let (n', r) := n.translateOutbound s.now src dst
-      let sp := specOut s.c s.h src dst
+      let sp := specOut s.c s.h src dst r
       let live := (s.h.liveFor s.c src (keyOf s.c.mapBeh dst))
       let sameOwnerOther := s.h.entries.any (fun e => e.owner = src ∧ e.live s.c s.h.now ∧ e.bound ≠ keyOf s.c.mapBeh dst)
       let expiredSame := s.h.entries.any (fun e => e.owner = src ∧ e.bound = keyOf s.c.mapBeh dst ∧ !e.live s.c s.h.now)
@@ -129,6 +134,9 @@ def comp (_mode : String) : Component where
         | .noBinding => if known then "refused-expired " else "refused-unknown "
         | .noAssoc => "refused-unpaired ")
       ({ s with n := some n' }, line4 (inStr r) (stateStr n' s.now) sp tags)
+    | ["ctr", k] =>
+      let n' := { n with counter := nat! k }
+      ({ s with n := some n', h := { s.h with allocs := nat! k } }, line4 "-" (stateStr n' s.now) "-" "counter-jump ")
     | ["adv", dt] =>
       let now' := s.now + (nat! dt : Int)
       ({ s with now := now', h := s.h.advance (nat! dt) }, line4 "-" (stateStr n now') "-" "adv ")
